@@ -330,7 +330,8 @@ pub struct World {
     pub root: PathBuf,
     pub ctx: BuildContext<SimBp>,
     pub names: Vec<LayerName>,
-    pub refs: HashMap<usize, Box<dyn RefOps>>,
+    /// every layer reference obtained in the current build, oldest first
+    pub refs: HashMap<usize, Vec<Box<dyn RefOps>>>,
 }
 
 const DESCRIPTOR: &str = r#"
@@ -395,6 +396,11 @@ impl World {
         Snap::take(&self.root)
     }
 
+    fn latest(&self, layer: usize) -> &dyn RefOps {
+        let list = &self.refs[&layer];
+        list[list.len() - 1].as_ref()
+    }
+
     fn layer_path(&self, i: usize) -> PathBuf {
         self.root.join("layers").join(self.names[i].as_str())
     }
@@ -418,7 +424,6 @@ impl World {
                 restored,
                 invalid,
             } => {
-                self.refs.remove(layer);
                 let out = match kind {
                     MetaKind::Generic => self.run_cached::<GenericMetadata>(
                         *id, *layer, *build, *launch, *enc_restored, *enc_invalid, *restored, invalid, log,
@@ -436,7 +441,6 @@ impl World {
                 self.finish_struct(*layer, out)
             }
             Op::Uncached { layer, build, launch, .. } => {
-                self.refs.remove(layer);
                 let r = self.ctx.uncached_layer(
                     &self.names[*layer],
                     UncachedLayerDefinition {
@@ -457,6 +461,7 @@ impl World {
                 strategy,
                 migration,
                 result,
+                types_after,
             } => {
                 self.refs.remove(layer);
                 let types = LayerTypes {
@@ -464,30 +469,39 @@ impl World {
                     launch: *launch,
                     cache: *cache,
                 };
+                let after = types_after.map(|(b, l, c)| LayerTypes {
+                    build: b,
+                    launch: l,
+                    cache: c,
+                });
                 match kind {
                     MetaKind::Generic => {
-                        self.run_handle::<GenericMetadata>(*id, *layer, types, *strategy, migration, result, log)
+                        self.run_handle::<GenericMetadata>(*id, *layer, types, after, *strategy, migration, result, log)
                     }
-                    MetaKind::A => self.run_handle::<MetaA>(*id, *layer, types, *strategy, migration, result, log),
-                    MetaKind::B => self.run_handle::<MetaB>(*id, *layer, types, *strategy, migration, result, log),
-                    MetaKind::Loose => self.run_handle::<MetaLoose>(*id, *layer, types, *strategy, migration, result, log),
+                    MetaKind::A => self.run_handle::<MetaA>(*id, *layer, types, after, *strategy, migration, result, log),
+                    MetaKind::B => self.run_handle::<MetaB>(*id, *layer, types, after, *strategy, migration, result, log),
+                    MetaKind::Loose => self.run_handle::<MetaLoose>(*id, *layer, types, after, *strategy, migration, result, log),
                 }
             }
-            Op::WriteMetadata { layer, meta } => unit(self.refs[layer].write_metadata(meta)),
-            Op::WriteEnv { layer, env } => unit(self.refs[layer].write_env(&layer_env_from_spec(env))),
-            Op::ReadEnv { layer, .. } => match self.refs[layer].read_env() {
+            Op::WriteMetadata { layer, meta, older_ref } => {
+                let list = &self.refs[layer];
+                let r = if *older_ref { &list[0] } else { &list[list.len() - 1] };
+                unit(r.write_metadata(meta))
+            }
+            Op::WriteEnv { layer, env } => unit(self.latest(*layer).write_env(&layer_env_from_spec(env))),
+            Op::ReadEnv { layer, .. } => match self.latest(*layer).read_env() {
                 Ok(e) => Observed::EnvRead(Box::new(e)),
                 Err(ObsErr::Buildpack(c)) => Observed::ErrBuildpack(c),
                 Err(ObsErr::Other(s)) => Observed::ErrOther(s),
             },
             Op::EnvCycle { layer, times } => {
                 for _ in 0..*times {
-                    let env = match self.refs[layer].read_env() {
+                    let env = match self.latest(*layer).read_env() {
                         Ok(e) => e,
                         Err(ObsErr::Buildpack(c)) => return Observed::ErrBuildpack(c),
                         Err(ObsErr::Other(s)) => return Observed::ErrOther(s),
                     };
-                    if let Err(e) = self.refs[layer].write_env(&env) {
+                    if let Err(e) = self.latest(*layer).write_env(&env) {
                         return match e {
                             ObsErr::Buildpack(c) => Observed::ErrBuildpack(c),
                             ObsErr::Other(s) => Observed::ErrOther(s),
@@ -496,13 +510,13 @@ impl World {
                 }
                 Observed::UnitOk
             }
-            Op::WriteSboms { layer, sboms } => unit(self.refs[layer].write_sboms(&sboms_from_spec(sboms))),
+            Op::WriteSboms { layer, sboms } => unit(self.latest(*layer).write_sboms(&sboms_from_spec(sboms))),
             Op::WriteExecD { layer, progs } => {
                 let v = progs
                     .iter()
                     .map(|p| (p.name.clone(), self.source_path(p.source)))
                     .collect();
-                unit(self.refs[layer].write_exec_d(v))
+                unit(self.latest(*layer).write_exec_d(v))
             }
             Op::PlainFile { layer, file } => {
                 harness(write_file(&self.layer_path(*layer), file));
@@ -594,7 +608,7 @@ impl World {
     fn finish_struct(&mut self, layer: usize, out: StructOut) -> Observed {
         match out {
             Ok((rep, r)) => {
-                self.refs.insert(layer, r);
+                self.refs.entry(layer).or_default().push(r);
                 Observed::StructOk(rep)
             }
             Err(ObsErr::Buildpack(c)) => Observed::ErrBuildpack(c),
@@ -724,6 +738,7 @@ impl World {
         id: u32,
         layer: usize,
         types: LayerTypes,
+        types_after: Option<LayerTypes>,
         strategy: Strategy,
         migration: &Migration,
         res: &ResSpec,
@@ -731,7 +746,8 @@ impl World {
     ) -> Observed {
         let sim = SimLayer::<M> {
             id,
-            types,
+            types: std::cell::Cell::new(types),
+            types_after,
             strategy,
             migration,
             res,
@@ -801,7 +817,8 @@ fn write_file(base: &Path, f: &FileSpec) -> std::io::Result<()> {
 
 struct SimLayer<'a, M> {
     id: u32,
-    types: LayerTypes,
+    types: std::cell::Cell<LayerTypes>,
+    types_after: Option<LayerTypes>,
     strategy: Strategy,
     migration: &'a Migration,
     res: &'a ResSpec,
@@ -811,6 +828,13 @@ struct SimLayer<'a, M> {
 }
 
 impl<M: MetaT> SimLayer<'_, M> {
+    /// the layer learns its types while it is being handled
+    fn learn_types(&self) {
+        if let Some(t) = self.types_after {
+            self.types.set(t);
+        }
+    }
+
     fn produce(&self, layer_path: &Path) -> Result<LayerResult<M>, SimErr> {
         if self.res.fail {
             return Err(SimErr(err_code(self.id, 2)));
@@ -843,7 +867,7 @@ impl<M: MetaT> Layer for SimLayer<'_, M> {
     type Metadata = M;
 
     fn types(&self) -> LayerTypes {
-        self.types
+        self.types.get()
     }
 
     fn create(
@@ -863,6 +887,7 @@ impl<M: MetaT> Layer for SimLayer<'_, M> {
             listing,
             dir: None,
         });
+        self.learn_types();
         self.produce(layer_path)
     }
 
@@ -880,6 +905,7 @@ impl<M: MetaT> Layer for SimLayer<'_, M> {
             listing: None,
             dir: Snap::take(&layer_data.path).ok(),
         });
+        self.learn_types();
         match self.strategy {
             Strategy::Keep => Ok(ExistingLayerStrategy::Keep),
             Strategy::Update => Ok(ExistingLayerStrategy::Update),
@@ -902,6 +928,7 @@ impl<M: MetaT> Layer for SimLayer<'_, M> {
             listing: None,
             dir: Snap::take(&layer_data.path).ok(),
         });
+        self.learn_types();
         self.produce(&layer_data.path)
     }
 
